@@ -1,6 +1,7 @@
 namespace go c09.new
 enum E { A = 1, B = 2 }
-struct Inner { 1: i32 a, 2: optional string b, 3: optional list<i32> c }
+struct Inner { 1: i32 a, 2: optional string b, 3: optional list<i32> c, 4: optional bool flag }
+struct Empty {}
 union Arm { 1: i32 x, 2: string y }
 struct Root {
   1: required i32 r
@@ -15,4 +16,11 @@ struct Root {
   10: map<i32, list<string>> mm
   11: optional double dd = 1.5
   12: optional Inner oin
+  13: optional bool nb
+  14: optional byte ny
+  15: optional i16 ns
+  16: optional E ne
+  17: optional binary nbin
+  18: optional set<i64> nset
+  19: optional Empty emp
 }
